@@ -51,10 +51,15 @@ var bigBody = strings.Repeat("lorem ipsum dolor sit amet ", 6*1024*1024/27)
 
 const uniTitle = "Nïcé 任务 タスク ñ"
 
+// midBody: longer than the usual buffer sizes (4 KiB, 64 KiB is covered by the text engine), far below the line limit
+var midBody = "mid " + strings.Repeat("0123456789abcdef", 6000/16)
+
 func expandToken(v string) string {
 	switch v {
 	case "BIG":
 		return bigBody
+	case "MID":
+		return midBody
 	case "UNI":
 		return uniTitle
 	case "UBLANK":
